@@ -159,12 +159,16 @@ func (r *Reconciler) Reconcile(ctx context.Context, request reconcile.Request) (
 		}
 	}
 
-	err = utilserrors.NewAggregate(errs)
-	conditions.UpdateErrorCondition(newStatus, now, err, "")
+	podsErr := utilserrors.NewAggregate(errs)
+	conditions.UpdateErrorCondition(newStatus, now, podsErr, "")
 	conditions.UpdateExtendedDaemonSetReplicaSetStatusCondition(newStatus, now, datadoghqv1alpha1.ConditionTypeLastFullSync, corev1.ConditionTrue, "", "full sync", true, true)
 
 	reqLogger.V(1).Info("Updating ExtendedDaemonSetReplicaSet status")
 	err = r.updateReplicaSet(replicaSetInstance, newStatus)
+	if err == nil {
+		// the errors of the pod operations are recorded in the status and reported by the sync as well
+		err = podsErr
+	}
 
 	// Garbage collect the failedPodsBackOff map once per minute,
 	// i.e. whenever the seconds [0,59] is less than the reconcile frequency
